@@ -112,12 +112,16 @@ def fix_limits(sp, mi):
 
 
 def full_ok(sp):
-    """whole-run trajectory comparison allowed (kappa <= 10, or few distinct eigenvalues with moderate kappa)"""
+    """whole-run trajectory comparison allowed: the PRECONDITIONED operator is well conditioned (kappa <= 10 with a
+    preconditioner that does not spoil it) or has few distinct eigenvalues with moderate kappa (no preconditioner)"""
+    pre = sp.get("pre", "none")
     if sp["fam"] == "identity" or sp["n"] == 1:
         return True
+    if pre == "randspd":          # a random SPD "preconditioner" makes M^-1 A arbitrarily conditioned
+        return False
     if sp["kappa"] <= 10:
         return True
-    if sp["fam"].startswith("few") and sp["kappa"] <= 1e2:
+    if sp["fam"].startswith("few") and sp["kappa"] <= 1e2 and pre in ("none", "identity"):
         return True
     return False
 
